@@ -575,6 +575,20 @@ def _process_child_attrs(cls, retval, kwargs):
                 retval.Attributes._delayed_child_attrs[k] = dca
 
 
+def _refresh_type_info_alt(cls):
+    """The index of the alternative names of the members (sub_name, sub_ns)
+    holds the member types as well: after the members of a class were
+    customized it is made anew, so that it names the customized types, and the
+    names they were given."""
+
+    alt = cls._type_info_alt
+    for key, (_, k) in list(alt.items()):
+        if k in cls._type_info:
+            del alt[key]
+
+    _sanitize_type_info(cls.__name__, cls._type_info, alt)
+
+
 def recust_selfref(selfref, cls):
     if len(selfref.customize_args) > 0 or len(selfref.customize_kwargs) > 0:
         logger.debug("Replace self reference with %r with *%r and **%r",
@@ -1289,6 +1303,7 @@ class ComplexModelBase(ModelBase):
             cls._process_variants(retval)
 
         _process_child_attrs(cls, retval, kwargs)
+        _refresh_type_info_alt(retval)
 
         # we could be smarter, but customize is supposed to be called only
         # during daemon initialization, so it's not really necessary.
